@@ -7,6 +7,7 @@ package mtu
 import (
 	"errors"
 	"fmt"
+	"math"
 	"strconv"
 
 	"github.com/insomniacslk/dhcp/dhcpv4"
@@ -35,6 +36,10 @@ func setup4(args ...string) (handler.Handler4, error) {
 	}
 	var err error
 	if mtu, err = strconv.Atoi(args[0]); err != nil {
+		return nil, fmt.Errorf("invalid mtu: %v", args[0])
+	}
+	// the Interface MTU option carries a 16-bit value
+	if mtu < 0 || mtu > math.MaxUint16 {
 		return nil, fmt.Errorf("invalid mtu: %v", args[0])
 	}
 	log.Infof("loaded mtu %d.", mtu)
